@@ -63,6 +63,7 @@ type Program struct {
 	// statistics printed into every evidence file
 	NFiles, NFuncs, NSSAFuncs int
 	modFuncs                  []*ssa.Function // functions of the module with bodies (incl. closures)
+	extTable                  map[string]types.Type
 }
 
 func loadEnv(cfg BuildConfig) []string {
